@@ -214,7 +214,9 @@ def parse_file(path):
                     mm=re.match(r'(?:mut )?_(\d+): (.*)$',a)
                     f.args.append(int(mm.group(1))); f.locals[int(mm.group(1))]=Local(int(mm.group(1)),mm.group(2))
             else:
-                name,rest=sig.split(': ',1); ty=rest.rsplit(' = ',1)[0]
+                masked=re.sub(r'<impl at [^>]*>', lambda m_: 'X'*len(m_.group(0)), sig)
+                cut=masked.index(': ')
+                name,rest=sig[:cut],sig[cut+2:]; ty=rest.rsplit(' = ',1)[0]
                 f=Fn(name,kind); f.ret=ty
             i+=1; blk=None; start=i
             while i<n and lines[i]!='}':
